@@ -27,16 +27,21 @@ structure Inv (inp : EnvInput) (s : EnvState) : Prop where
           (inp.nullity = 0 → s.xreg = none) ∧
           (0 < inp.nullity → s.xreg = some (eff inp s.minx) ∧ inp.resolves (eff inp s.minx) = true)
   live : ∀ k b, (k, b) ∈ s.mtf.ents →
-          (0 < k → s.ix = false ∧ 0 < inp.nullity ∧ s.content b = .trow k.toNat (eff inp s.minx))
-          ∧ (k < 0 → 3 ≤ s.stage ∧ s.content b = .invcol (-k).toNat) ∧ k ≠ 0
+          (0 < k → s.ix = false ∧ 0 < inp.nullity ∧ s.content b = .trow inp.id k.toNat (eff inp s.minx))
+          ∧ (k < 0 → 3 ≤ s.stage ∧ s.content b = .invcol inp.id (-k).toNat) ∧ k ≠ 0
+  /-- `tmpres` has the dimension of the current system whenever `init_q_bb` is clear -/
+  tq : s.iqbb = false → s.tmpresDim = inp.n
 
 theorem inv_init (inp : EnvInput) (m : Option (List Nat)) : Inv inp (init m) := by
-  refine ⟨?_, ?_, ?_, ?_, ?_, ?_, ?_, ?_, ?_⟩ <;>
+  refine ⟨?_, ?_, ?_, ?_, ?_, ?_, ?_, ?_, ?_, ?_⟩ <;>
     simp [init, setStage, MTF.init, MTF.cap, cacheSize]
   · exact wf_init _ (by decide)
 
-theorem inv_reset {inp : EnvInput} {s : EnvState} (h : Inv inp s) : Inv inp (reset s) := by
-  refine ⟨?_, ?_, ?_, ?_, ?_, ?_, ?_, ?_, ?_⟩ <;>
+/-- `reset(data')` establishes the invariant for ANY new input `inp'` (same or other data, same or
+    other size): the key table is erased, so no claim about a cached vector survives, and
+    `init_q_bb` is set, so `tmpres` is re-dimensioned before it is used -/
+theorem inv_reset {inp inp' : EnvInput} {s : EnvState} (h : Inv inp s) : Inv inp' (reset s) := by
+  refine ⟨?_, ?_, ?_, ?_, ?_, ?_, ?_, ?_, ?_, ?_⟩ <;>
     simp [reset, setStage, MTF.erase]
   · exact wf_erase h.wf
   · have := h.cap; rw [← cap_erase] at this; simpa [MTF.erase] using this
@@ -75,7 +80,9 @@ theorem inv_solveX0 {inp : EnvInput} {s : EnvState} (h : Inv inp s) : Inv inp (s
     have hnp := h.no_pos hlow.1
     have hnn := h.no_neg (by omega : s.stage < 3)
     have hfr := solveX0_frame s
-    refine ⟨?_, ?_, ?_, ?_, ?_, ?_, ?_, ?_, ?_⟩
+    refine ⟨?_, ?_, ?_, ?_, ?_, ?_, ?_, ?_, ?_, ?_⟩
+    rotate_right
+    · intro hq; simp [solveX0, hs, solveOrdering, setStage] at hq
     · rw [hfr.1]; exact h.wf
     · rw [hfr.1]; exact h.cap
     · intro hlt; have := solveX0_stage s; omega
@@ -122,7 +129,9 @@ theorem inv_ensureQ0 {inp : EnvInput} {s : EnvState} (h : Inv inp s) : Inv inp (
       unfold ensureX0; split
       · exact solveX0_stage s
       · omega
-    refine ⟨?_, ?_, ?_, ?_, ?_, ?_, ?_, ?_, ?_⟩
+    refine ⟨?_, ?_, ?_, ?_, ?_, ?_, ?_, ?_, ?_, ?_⟩
+    rotate_right
+    · intro hq; simp [ensureQ0, h3, solveQ0, hiq, setStage] at hq
     · rw [hfr.1]; exact h.wf
     · rw [hfr.1]; exact h.cap
     · intro hlt; omega
@@ -174,7 +183,7 @@ theorem inv_mat {inp : EnvInput} {s : EnvState} (h : Inv inp s) (hix : s.ix = tr
   have hnp := h.no_pos hix
   unfold mat
   split
-  · refine ⟨h.wf, h.cap, h.low, h.x0, h.q0, h.iq0, h.resid, ?_, ?_⟩
+  · refine ⟨h.wf, h.cap, h.low, h.x0, h.q0, h.iq0, h.resid, ?_, ?_, h.tq⟩
     · intro hx; simp [hix] at hx
     · intro k b hm
       exact ⟨fun hk => absurd hk (hnp k b hm), (h.live k b hm).2.1, (h.live k b hm).2.2⟩
@@ -201,7 +210,7 @@ theorem inv_setX {inp : EnvInput} {p : EnvState} (h : Inv inp p) (hix : p.ix = t
            (0 < inp.nullity → xr = some (eff inp p.minx) ∧ inp.resolves (eff inp p.minx) = true)) :
     Inv inp { p with ix := false, haveX := p.haveX0, xreg := xr } := by
   have hnp := h.no_pos hix
-  refine ⟨h.wf, h.cap, ?_, h.x0, h.q0, h.iq0, h.resid, ?_, ?_⟩
+  refine ⟨h.wf, h.cap, ?_, h.x0, h.q0, h.iq0, h.resid, ?_, ?_, h.tq⟩
   · intro hlt; simp at hlt; omega
   · intro _; exact ⟨h.x0 hst, hst, hxr.1, hxr.2⟩
   · intro k b hm
@@ -245,8 +254,8 @@ theorem solveX_spec {inp : EnvInput} {s : EnvState} (h : Inv inp s) :
 
 /-- what the freshly written / found buffer must hold for key `k` in state `s` -/
 def FillOk (inp : EnvInput) (s : EnvState) (k : Int) (fill : Prov) : Prop :=
-  (0 < k → s.ix = false ∧ 0 < inp.nullity ∧ fill = .trow k.toNat (eff inp s.minx))
-  ∧ (k < 0 → 3 ≤ s.stage ∧ fill = .invcol (-k).toNat) ∧ k ≠ 0
+  (0 < k → s.ix = false ∧ 0 < inp.nullity ∧ fill = .trow inp.id k.toNat (eff inp s.minx))
+  ∧ (k < 0 → 3 ≤ s.stage ∧ fill = .invcol inp.id (-k).toNat) ∧ k ≠ 0
 
 theorem cached_spec {inp : EnvInput} {s : EnvState} (h : Inv inp s) (k : Int) (fill : Prov)
     (hfill : FillOk inp s k fill) :
@@ -269,7 +278,7 @@ theorem cached_spec {inp : EnvInput} {s : EnvState} (h : Inv inp s) (k : Int) (f
   | true =>
     have hmem := hspec.hit_mem
     simp only [cached, hget, ↓reduceIte, Bool.false_eq_true]
-    refine ⟨⟨hwf', by rw [hcap']; exact h.cap, h.low, h.x0, h.q0, h.iq0, h.resid, h.xok, ?_⟩,
+    refine ⟨⟨hwf', by rw [hcap']; exact h.cap, h.low, h.x0, h.q0, h.iq0, h.resid, h.xok, ?_, h.tq⟩,
       ⟨rest', hhead⟩, trivial, trivial, trivial, trivial, trivial, trivial, hkeep,
       fun b0 hb0 => h.wf.buf_of_key hmem hb0⟩
     intro k' b' hm
@@ -281,7 +290,7 @@ theorem cached_spec {inp : EnvInput} {s : EnvState} (h : Inv inp s) (k : Int) (f
     · exact h.live _ _ (hspec.old k' b' hm hk)
   | false =>
     simp only [cached, hget, ↓reduceIte, Bool.false_eq_true]
-    refine ⟨⟨hwf', by rw [hcap']; exact h.cap, h.low, h.x0, h.q0, h.iq0, h.resid, h.xok, ?_⟩,
+    refine ⟨⟨hwf', by rw [hcap']; exact h.cap, h.low, h.x0, h.q0, h.iq0, h.resid, h.xok, ?_, h.tq⟩,
       ⟨rest', hhead⟩, trivial, trivial, trivial, trivial, trivial, trivial, hkeep,
       fun b0 hb0 => absurd (List.mem_map.mpr ⟨(k, b0), hb0, rfl⟩) hspec.miss_fresh⟩
     intro k' b' hm
@@ -308,7 +317,7 @@ def q0spec (inp : EnvInput) (i j : Nat) : Out :=
   let ii := inp.invp i
   let jj := inp.invp j
   if inp.inEnv ii jj then .q0in ii jj
-  else .q0col (.invcol (if ii < jj then jj else ii)) (if ii < jj then ii else jj)
+  else .q0col (.invcol inp.id (if ii < jj then jj else ii)) (if ii < jj then ii else jj)
 
 /-- the answer as a function of the input and the *effective* regularisation list only -/
 def spec (inp : EnvInput) (reg : List Nat) : Op → Out
@@ -320,7 +329,7 @@ def spec (inp : EnvInput) (reg : List Nat) : Op → Out
   | .q0xx i j => q0spec inp i j
   | .qxx i j =>
     if inp.nullity = 0 then q0spec inp i j
-    else if inp.resolves reg then .qxxSing (.trow i reg) (.trow j reg) else .badReg
+    else if inp.resolves reg then .qxxSing (.trow inp.id i reg) (.trow inp.id j reg) else .badReg
   | .qbb i j => if inp.qbbIn i j then .qbbIn i j else .qbbFull i j
   | .minxAll => .ok
   | .minx _ => .ok
@@ -349,9 +358,9 @@ theorem q0xx_spec {inp : EnvInput} {s : EnvState} (h : Inv inp s) (hp : inp.Pos)
   · simp only [he, Bool.false_eq_true, if_false]
     generalize hhi : (if inp.invp i < inp.invp j then inp.invp j else inp.invp i) = hiN
     have hpos : 1 ≤ hiN := by rw [← hhi]; split <;> assumption
-    have hfill : FillOk inp (ensureQ0 s) (-(hiN : Int)) (.invcol hiN) := by
+    have hfill : FillOk inp (ensureQ0 s) (-(hiN : Int)) (.invcol inp.id hiN) := by
       refine ⟨fun h0 => by omega, fun _ => ⟨hf.2.2.2.2.2.2.1, by simp⟩, by omega⟩
-    have hc := cached_spec h1 (-(hiN : Int)) (.invcol hiN) hfill
+    have hc := cached_spec h1 (-(hiN : Int)) (.invcol inp.id hiN) hfill
     obtain ⟨rest, hhead⟩ := hc.2.1
     have hlive := hc.1.live _ _ (by rw [hhead]; exact List.mem_cons_self ..)
     have hcont := (hlive.2.1 (by omega)).2
@@ -364,42 +373,42 @@ theorem q0xx_spec {inp : EnvInput} {s : EnvState} (h : Inv inp s) (hp : inp.Pos)
 theorem qxx_sing_spec {inp : EnvInput} {s : EnvState} (h : Inv inp s) {i j : Nat}
     (hi : 1 ≤ i) (hj : 1 ≤ j) (hix : s.ix = false) (hn : 0 < inp.nullity) :
     let reg := eff inp s.minx
-    let c1 := cached s (i : Int) (.trow i reg)
-    let c2 := cached c1.1 (j : Int) (.trow j reg)
-    Inv inp c2.1 ∧ c2.1.content c1.2 = .trow i reg ∧ c2.1.content c2.2 = .trow j reg
+    let c1 := cached s (i : Int) (.trow inp.id i reg)
+    let c2 := cached c1.1 (j : Int) (.trow inp.id j reg)
+    Inv inp c2.1 ∧ c2.1.content c1.2 = .trow inp.id i reg ∧ c2.1.content c2.2 = .trow inp.id j reg
     ∧ c2.1.minx = s.minx := by
   intro reg c1 c2
-  have hf1 : FillOk inp s (i : Int) (.trow i reg) :=
+  have hf1 : FillOk inp s (i : Int) (.trow inp.id i reg) :=
     ⟨fun _ => ⟨hix, hn, by simp [reg]⟩, fun h0 => by omega, by omega⟩
-  have hc1 := cached_spec h (i : Int) (.trow i reg) hf1
-  have hf2 : FillOk inp c1.1 (j : Int) (.trow j reg) := by
+  have hc1 := cached_spec h (i : Int) (.trow inp.id i reg) hf1
+  have hf2 : FillOk inp c1.1 (j : Int) (.trow inp.id j reg) := by
     refine ⟨fun _ => ⟨?_, hn, ?_⟩, fun h0 => by omega, by omega⟩
-    · show (cached s (i : Int) (.trow i reg)).1.ix = false
+    · show (cached s (i : Int) (.trow inp.id i reg)).1.ix = false
       rw [hc1.2.2.1]; exact hix
-    · show Prov.trow j reg = .trow (j : Int).toNat (eff inp (cached s (i : Int) (.trow i reg)).1.minx)
+    · show Prov.trow inp.id j reg = .trow inp.id (j : Int).toNat (eff inp (cached s (i : Int) (.trow inp.id i reg)).1.minx)
       rw [hc1.2.2.2.1]; simp [reg]
-  have hc2 := cached_spec hc1.1 (j : Int) (.trow j reg) hf2
+  have hc2 := cached_spec hc1.1 (j : Int) (.trow inp.id j reg) hf2
   obtain ⟨rest1, hhead1⟩ := hc1.2.1
   obtain ⟨rest2, hhead2⟩ := hc2.2.1
   have hminx : c2.1.minx = s.minx := by
-    show (cached c1.1 (j : Int) (.trow j reg)).1.minx = s.minx
+    show (cached c1.1 (j : Int) (.trow inp.id j reg)).1.minx = s.minx
     rw [hc2.2.2.2.1]; exact hc1.2.2.2.1
   have hix2 : c2.1.ix = false := by
-    show (cached c1.1 (j : Int) (.trow j reg)).1.ix = false
+    show (cached c1.1 (j : Int) (.trow inp.id j reg)).1.ix = false
     rw [hc2.2.2.1]
-    show (cached s (i : Int) (.trow i reg)).1.ix = false
+    show (cached s (i : Int) (.trow inp.id i reg)).1.ix = false
     rw [hc1.2.2.1]; exact hix
   -- the second buffer
   have hl2 := hc2.1.live _ _ (by rw [hhead2]; exact List.mem_cons_self ..)
-  have hb : c2.1.content c2.2 = .trow j reg := by
+  have hb : c2.1.content c2.2 = .trow inp.id j reg := by
     have := (hl2.1 (by omega)).2.2
     rw [hminx] at this; simpa [reg] using this
   -- the first buffer is still live and untouched
-  have ha : c2.1.content c1.2 = .trow i reg := by
+  have ha : c2.1.content c1.2 = .trow inp.id i reg := by
     by_cases hij : (i : Int) = (j : Int)
     · -- same key: the second `get` is a hit on the same buffer
       have hm1 : ((j : Int), c1.2) ∈ c1.1.mtf.ents := by
-        rw [← hij]; show ((i : Int), c1.2) ∈ (cached s (i : Int) (.trow i reg)).1.mtf.ents
+        rw [← hij]; show ((i : Int), c1.2) ∈ (cached s (i : Int) (.trow inp.id i reg)).1.mtf.ents
         rw [hhead1]; exact List.mem_cons_self ..
       have hsame : c2.2 = c1.2 := hc2.2.2.2.2.2.2.2.2.2 _ hm1
       have hijn : i = j := by exact_mod_cast hij
@@ -416,9 +425,10 @@ theorem Inv.transfer {inp : EnvInput} {s s' : EnvState} (h : Inv inp s)
     (hix : s'.ix = s.ix) (hminx : s'.minx = s.minx) (hxreg : s'.xreg = s.xreg) (hX : s'.haveX = s.haveX)
     (hiq0 : s'.iq0 = s.iq0)
     (hx0 : s.haveX0 = true → s'.haveX0 = true) (hq0 : s.haveQ0 = true → s'.haveQ0 = true)
-    (hres : s'.ires = false → s'.haveResid = true) (hlow : s'.stage < 2 → s'.ires = true) :
+    (hres : s'.ires = false → s'.haveResid = true) (hlow : s'.stage < 2 → s'.ires = true)
+    (htq : s'.iqbb = false → s'.tmpresDim = inp.n) :
     Inv inp s' := by
-  refine ⟨by rw [hm]; exact h.wf, by rw [hm]; exact h.cap, ?_, ?_, ?_, ?_, hres, ?_, ?_⟩
+  refine ⟨by rw [hm]; exact h.wf, by rw [hm]; exact h.cap, ?_, ?_, ?_, ?_, hres, ?_, ?_, htq⟩
   · intro hlt
     have := h.low (by omega)
     exact ⟨by rw [hix]; exact this.1, hlow hlt, by rw [hiq0]; exact this.2.2⟩
@@ -436,10 +446,24 @@ theorem Inv.transfer {inp : EnvInput} {s s' : EnvState} (h : Inv inp s)
 
 theorem inv_config {inp : EnvInput} {s : EnvState} (h : Inv inp s) (m : Option (List Nat)) :
     Inv inp { s with minx := m, mtf := s.mtf.erase, ix := true } := by
-  refine ⟨wf_erase h.wf, by rw [cap_erase]; exact h.cap, ?_, h.x0, h.q0, h.iq0, h.resid, ?_, ?_⟩
+  refine ⟨wf_erase h.wf, by rw [cap_erase]; exact h.cap, ?_, h.x0, h.q0, h.iq0, h.resid, ?_, ?_, h.tq⟩
   · intro hlt; exact ⟨rfl, (h.low hlt).2⟩
   · intro hx; simp at hx
   · intro k b hm; simp [MTF.erase] at hm
+
+/-- FULL_VECTOR branch of `q_bb`: `tmpres` is re-dimensioned iff `init_q_bb`; afterwards it has the
+    dimension of the current system (its content is zeroed and refilled by the code before use) -/
+theorem qbb_full_spec {inp : EnvInput} {p : EnvState} (h1 : Inv inp p) :
+    Inv inp (if p.iqbb then { p with tmpresDim := inp.n, iqbb := false } else p)
+    ∧ (if p.iqbb then { p with tmpresDim := inp.n, iqbb := false } else p).tmpresDim = inp.n
+    ∧ (if p.iqbb then { p with tmpresDim := inp.n, iqbb := false } else p).minx = p.minx := by
+  by_cases hq : p.iqbb = true
+  · simp only [hq, if_true]
+    exact ⟨h1.transfer rfl rfl rfl rfl rfl rfl rfl rfl (fun hh => hh) (fun hh => hh)
+      h1.resid (fun hlt => (h1.low hlt).2.1) (fun _ => rfl), trivial, trivial⟩
+  · have hq' : p.iqbb = false := by simpa using hq
+    simp only [hq', Bool.false_eq_true, if_false]
+    exact ⟨h1, h1.tq hq', trivial⟩
 
 /-- one step keeps the invariant and answers according to the history-free specification -/
 theorem step_spec {inp : EnvInput} {s : EnvState} (h : Inv inp s) (hp : inp.Pos) (op : Op) (hv : op.Valid) :
@@ -481,7 +505,7 @@ theorem step_spec {inp : EnvInput} {s : EnvState} (h : Inv inp s) (hp : inp.Pos)
       simp only [hr, if_true]
       refine ⟨?_, by simp [h1.2.1]⟩
       exact h1.1.transfer rfl rfl rfl rfl rfl rfl rfl rfl (fun hh => hh) (fun hh => hh)
-        (fun _ => h1.2.1) (fun hlt => absurd hlt (by simp; omega))
+        (fun _ => h1.2.1) (fun hlt => absurd hlt (by simp; omega)) h1.1.tq
     · have hr' : s.ires = false := by simpa using hr
       simp only [hr', Bool.false_eq_true, if_false]
       exact ⟨h, by simp [h.resid hr']⟩
@@ -543,8 +567,9 @@ theorem step_spec {inp : EnvInput} {s : EnvState} (h : Inv inp s) (hp : inp.Pos)
     by_cases hb : inp.qbbIn i j = true
     · simp only [hb, if_true]; exact ⟨h1, trivial⟩
     · simp only [hb, Bool.false_eq_true, if_false]
-      exact ⟨h1.transfer rfl rfl rfl rfl rfl rfl rfl rfl (fun hh => hh) (fun hh => hh)
-        h1.resid (fun hlt => (h1.low hlt).2.1), trivial⟩
+      have hq := qbb_full_spec h1
+      simp only [hq.2.1, bne_self_eq_false, Bool.false_eq_true, if_false]
+      exact ⟨hq.1, trivial⟩
   | minxAll => exact ⟨inv_config h none, rfl⟩
   | minx l => exact ⟨inv_config h (some l), rfl⟩
   | reset => exact ⟨inv_reset h, rfl⟩
@@ -612,7 +637,11 @@ theorem step_query_eff {inp : EnvInput} {s : EnvState} (h : Inv inp s) (hp : inp
     have hf := ensureQ0_frame h
     simp only [step]
     rw [if_neg (by simp [hf.2.2.2.2.2.2.2])]
-    split <;> simp [hf.2.2.1]
+    split
+    · simp [hf.2.2.1]
+    · have hq := qbb_full_spec (inv_ensureQ0 h)
+      simp only [hq.2.1, bne_self_eq_false, Bool.false_eq_true, if_false]
+      rw [hq.2.2, hf.2.2.1]
   | minxAll => exact absurd hq (by simp [Op.IsQuery])
   | minx l => exact absurd hq (by simp [Op.IsQuery])
   | reset => exact absurd hq (by simp [Op.IsQuery])
